@@ -382,12 +382,12 @@ pub fn subchecks(tier: Tier) -> Vec<SubCheck> {
             eval(&case, &mut st)
         }),
     };
-    let max_log = tier.pick(24u32, 30u32);
+    let max_log = tier.pick(24u32, 28u32);
     vec![
         generated(
             "hook_equiv",
-            "validates the hook, not the library: (state-establishing program, n zero bytes, continuation): verif_feed_zeroes(n) vs really feeding n zeros in mixed update forms: identical {:?} state and identical behaviour on the continuation; n dense in 0..=4096, sampled up to 2^24 (quick) / 2^30 (thorough); non-trivial = n > 7; distinct by case",
-            tier.pick(6_000, 40_000),
+            "validates the hook, not the library: (state-establishing program, n zero bytes, continuation): verif_feed_zeroes(n) vs really feeding n zeros in mixed update forms: identical {:?} state and identical behaviour on the continuation; n dense in 0..=4096, sampled up to 2^24 (quick) / 2^28 (thorough); non-trivial = n > 7; distinct by case",
+            tier.pick(6_000, 24_000),
             move || hook_strategy(wt_seed(), max_log),
             eval_hook,
         ),
